@@ -172,3 +172,153 @@ void s2i(Rng& rng)
         VH_RUN((convert<Tag, D>{}(a)), print_tv)
     }
 }
+
+// ---------------------------------------------------------------------------------------------------------
+// elastic_scaled_integer<DS, power<ES>, N> -> elastic_scaled_integer<DD, power<ES + K>, N>: plain conversion
+// (static_cast), convert<native / nearest / tie_to_pos_inf / neg_inf>.  The representation is an elastic_integer,
+// so every step (scale<-K> = division by divisor_rep{1} << K, the bias from +- half, >> K) runs in the elastic
+// layer's storage types.  Values are 128-bit; they use the top digits of the source, both signs.
+template<class N, int DS>
+std::vector<I> e2e_vals(Rng& rng, int K, int nrand)
+{
+    constexpr bool sg = std::is_signed_v<N>;
+    I const lim = (I(1) << DS) - 1;
+    I const lo = sg ? -lim : I(0);
+    std::vector<I> v;
+    auto add = [&](I x) {
+        if (x >= lo && x <= lim) push_unique(v, x);
+    };
+    I const unit = I(1) << K, half = I(1) << (K - 1);
+    I const qmax = lim >> K;
+    std::vector<I> qs;
+    for (int q = -3; q <= 3; ++q) qs.push_back(q);
+    for (int d = 0; d < 3; ++d) {
+        qs.push_back(qmax - d);
+        qs.push_back(-(qmax - d));
+        qs.push_back((qmax >> 1) + d);
+        qs.push_back(-(qmax >> 1) - d);
+    }
+    for (int i = 0; i < nrand; ++i) {
+        I q = I(rng.next128() % (U(qmax) + 1));
+        qs.push_back((i & 1) ? -q : q);
+    }
+    for (I q : qs)
+        for (I base : {q * unit, q * unit + half})
+            for (int j = -1; j <= 1; ++j) add(base + j);
+    for (int d = 0; d < 3; ++d) {
+        add(lim - d);
+        add(lo + d);
+    }
+    for (int i = 0; i < nrand; ++i) {
+        I x = I(rng.next128() % (U(lim) + 1));
+        add((i & 1) ? -x : x);
+    }
+    return v;
+}
+
+template<class N, int DS, int ES, int DD, int K>
+void e2e(Rng& rng)
+{
+    static_assert(K >= 1 && DS <= 126);
+    using A = elastic_scaled_integer<DS, power<ES>, N>;
+    using B = elastic_scaled_integer<DD, power<ES + K>, N>;
+    using AR = elastic_integer<DS, N>;
+    using R = _impl::rep_of_t<AR>;
+    std::string head = tn<N>() + " " + std::to_string(DS) + " " + std::to_string(ES) + " " + std::to_string(DD) + " " + std::to_string(ES + K) + " ";
+    for (I s : e2e_vals<N, DS>(rng, K, 6 * scale_from_env())) {
+        A a = _impl::from_rep<A>(_impl::from_rep<AR>(static_cast<R>(s)));
+        auto line = [&](char const* how) {
+            printf("C09 e2e %s %s", how, head.c_str());
+            prv(s);
+            fputs(" => ", stdout);
+        };
+        line("cast");
+        VH_RUN((static_cast<B>(a)), print_num)
+        line("nat");
+        VH_RUN((convert<native_rounding_tag, B>{}(a)), print_num)
+        // (the biased conversions need the destination unit 2^K in the source's digits to mean anything:
+        //  class C09.scaled_half_unit_exceeds_source_rep; K < DS is the grid's choice, both sides are covered)
+        // nearest compares `from >= 0`, which brings the int 0 to the source's exponent in int: power_value<int, -ES, 2>
+        // is ill-formed (static_assert) for ES < -30
+        if constexpr (ES >= -30) {
+            line("nrst");
+            VH_RUN((convert<nearest_rounding_tag, B>{}(a)), print_num)
+        }
+        line("tpi");
+        VH_RUN((convert<tie_to_pos_inf_rounding_tag, B>{}(a)), print_num)
+        line("ninf");
+        VH_RUN((convert<neg_inf_rounding_tag, B>{}(a)), print_num)
+    }
+}
+// all shifts K0 .. K0 + sizeof...(Ks) - 1, destination digits = source digits
+template<class N, int DS, int ES, int K0, int... Ks>
+void e2e_sweep_(Rng& rng, std::integer_sequence<int, Ks...>)
+{
+    (e2e<N, DS, ES, DS, K0 + Ks>(rng), ...);
+}
+template<class N, int DS, int ES, int K0, int Count>
+void e2e_sweep(Rng& rng)
+{
+    e2e_sweep_<N, DS, ES, K0>(rng, std::make_integer_sequence<int, Count>{});
+}
+
+// ---------------------------------------------------------------------------------------------------------
+// a scaled_integer whose representation carries the rounding mode, converted to a FUNDAMENTAL integer:
+// static_cast<D>(x), D{x} (wrapper::operator S(): convert<native_tag, S, power<E>>{}(rep), i.e. scale<E> of the
+// representation -- the tagged division by 2^-E -- then the conversion of the representation to D).
+// A = scaled_integer<rounding_integer<S, Tag>, power<E>>, static_number<Digits, E, Tag, OTag, N>, nests.
+template<class A>
+struct sc_exp;
+template<class Rep, int E, int Radix>
+struct sc_exp<scaled_integer<Rep, power<E, Radix>>> {
+    static constexpr int value = E;
+};
+template<class A, class D>
+void w2i(Rng& rng)
+{
+    using Rep = _impl::rep_of_t<A>;
+    using In = decltype(innermost(std::declval<A>()));
+    constexpr int E = sc_exp<A>::value;
+    constexpr int dg = digits_v<A>;   // digits of the number (a static_number uses fewer than its storage)
+    I const lim = I(innermost(std::numeric_limits<A>::max()));
+    I const lo = I(innermost(std::numeric_limits<A>::lowest()));
+    std::vector<I> sv;
+    auto add = [&](I x) {
+        if (x >= lo && x <= lim) push_unique(sv, x);
+    };
+    if (dg <= 12) {
+        for (I x = lo; x <= lim; ++x) sv.push_back(x);
+    } else {
+        for (int i = -40; i <= 40; ++i) add(i);
+        for (int d = 0; d < 8; ++d) {
+            add(lim - d);
+            add(lo + d);
+        }
+        for (int i = 0; i < 30 * scale_from_env(); ++i) {
+            I x = I(rng.next128() % (U(lim) + 1)) >> (rng.next() % dg);
+            add((i & 1) ? -x : x);
+        }
+        if constexpr (E < 0) {
+            constexpr int k = -E;
+            if (k < 100) {
+                I const qmax = lim >> k;
+                for (int i = 0; i < 60; ++i) {
+                    I q = I(rng.next128() % (U(qmax) + 1));
+                    if (i % 4 == 0) q = qmax - (i % 3);
+                    if (i % 4 == 1) q = I(rng.next() % 50);
+                    if (i & 1) q = -q;
+                    for (I base : {q << k, (q << k) + (I(1) << (k - 1))})
+                        for (int d = -1; d <= 1; ++d) add(base + d);
+                }
+            }
+        }
+    }
+    std::string head = "C09 w2i " + tn<A>() + " " + tn<D>() + " ";
+    for (I s : sv) {
+        A a = _impl::from_rep<A>(Rep{static_cast<In>(s)});
+        fputs(head.c_str(), stdout);
+        prv(s);
+        fputs(" => ", stdout);
+        VH_RUN((static_cast<D>(a)), print_tv)
+    }
+}
